@@ -71,6 +71,9 @@ def run():
             cells.append(dict(target="gauss4", N=N, n_total=8 * N, mode="vec", kernel=kern, resample="mult", clustering=False))
             if kern == "tpcn":     # posterior 1000x narrower than the prior; RWM's finite-N error there exceeds any fair allowance
                 cells.append(dict(target="gauss2", N=N, n_total=8 * N, mode="vec", kernel=kern, resample="syst", clustering=False, tkw=dict(half=500.0, rho=0.5)))
+    # dynamic mode with a small requested variation: the temperature is found by bisection strictly inside (beta_prev, ESS limit)
+    for kern, vv in (("tpcn", 0.04), ("rwm", 0.02)):
+        cells.append(dict(target="gauss2", N=128, n_total=1024, mode="vec", kernel=kern, resample="syst", clustering=False, volume_variation=vv))
     # a run stopped half-way and continued by a new sampler with four times / a quarter of the particles (stored batches of
     # different sizes): the evidence of the continued run is judged like any other
     cells.append(dict(target="gauss2", N=128, n_total=1024, mode="vec", kernel="tpcn", resample="syst", clustering=False, continue_with=512))
